@@ -62,6 +62,10 @@ func verifC04World(state ConnectionState, withSel bool) (*verifWorld, *Candidate
 	a := w.a
 	a.connectionState = state
 	a.loop = verifLoop()
+	for _, p := range a.checklist {
+		p.nominateOnBindingSuccess, p.renominateOnBindingSuccess = verifBool(), verifBool()
+		p.bindingRequestCount = uint16(verifInt(0, 9))
+	}
 	var sp *CandidatePair
 	if withSel {
 		sp = a.checklist[0]
